@@ -869,6 +869,12 @@ class Interp:
         kwargs = {k.arg: self.eval(k.value, fr) for k in node.keywords if k.arg}
         if isinstance(node.func, ast.Attribute):
             recv = self.eval(node.func.value, fr)
+            # a local list used as an accumulator: Us.append(U) / Us.extend([..])
+            if isinstance(recv, Tup) and isinstance(node.func.value, ast.Name) and node.func.attr in ("append", "extend") and len(args) == 1:
+                add = [args[0]] if node.func.attr == "append" else (list(args[0].items) if isinstance(args[0], Tup) else None)
+                if add is not None:
+                    fr.env[node.func.value.id] = Tup(list(recv.items) + add)
+                    return None
             if self.dom.is_value(recv) or isinstance(recv, (Phi, Tup)):
                 r = self._dom_call("." + node.func.attr, [recv] + args, kwargs, node)
                 if r is not NotImplemented:
